@@ -63,6 +63,48 @@ Proof. induction o; cbn [dealias need]; rewrite ?lit_of_dealias, ?clit_of_dealia
 Lemma dealias_op_ok l o : nulfree l -> op_ok l o -> op_ok l (dealias l o).
 Proof. intros F (B & A & N). split; [exact B|]. split; [now apply dealias_args_ok|now rewrite dealias_need]. Qed.
 
+(* ------------------------------------------------------------------ reading through a window *)
+
+(* nothing outside the window can matter: the window's bytes determine every read *)
+Lemma win_remaining_local a1 a2 win r : takeN win a1 = takeN win a2 -> win_remaining a1 win r = win_remaining a2 win r.
+Proof. intros H. unfold win_remaining. now rewrite H. Qed.
+Lemma read_cstr_w_local a1 a2 win r : takeN win a1 = takeN win a2 -> read_cstr_w a1 win r = read_cstr_w a2 win r.
+Proof. intros H. unfold read_cstr_w. now rewrite (win_remaining_local a1 a2 win r H). Qed.
+Lemma run_pre_local a1 a2 win ps : takeN win a1 = takeN win a2 -> run_pre a1 win ps = run_pre a2 win ps.
+Proof.
+  intros H. unfold run_pre. generalize 0. induction ps as [|p ps IH]; intros r; cbn [fold_left]; [reflexivity|].
+  assert (E : pre_step a1 win r p = pre_step a2 win r p).
+  { destruct p; cbn [pre_step]; [now rewrite (win_remaining_local a1 a2 win r H)|now rewrite (read_cstr_w_local a1 a2 win r H)]. }
+  rewrite E. apply IH.
+Qed.
+
+Lemma cstr_shorter l : list_eqb (cstr l) l = false -> lenN (cstr l) + 1 <= lenN l.
+Proof.
+  induction l as [|x t IH]; cbn [cstr]; [discriminate|].
+  destruct (x =? 0) eqn:E; intros H; [rewrite lenN_nil, lenN_cons; lia|].
+  cbn [list_eqb] in H. rewrite N.eqb_refl in H. cbn [andb] in H. specialize (IH H). rewrite !lenN_cons. lia.
+Qed.
+(* the read position never leaves the window *)
+Lemma read_cstr_w_le arena win r : r <= lenN (takeN win arena) -> snd (read_cstr_w arena win r) <= lenN (takeN win arena).
+Proof.
+  intros H. unfold read_cstr_w, win_remaining.
+  destruct (list_eqb (cstr (dropN r (takeN win arena))) (dropN r (takeN win arena))) eqn:E; cbn [snd]; [exact H|].
+  apply cstr_shorter in E. rewrite lenN_dropN in E. lia.
+Qed.
+Lemma run_pre_le arena win ps : run_pre arena win ps <= lenN (takeN win arena).
+Proof.
+  unfold run_pre. assert (G : forall r, r <= lenN (takeN win arena) -> fold_left (pre_step arena win) ps r <= lenN (takeN win arena)).
+  { induction ps as [|p ps IH]; intros r H; cbn [fold_left]; [exact H|]. apply IH.
+    destruct p; cbn [pre_step]; [|now apply read_cstr_w_le].
+    unfold win_remaining. rewrite lenN_dropN. destruct (n <=? lenN (takeN win arena) - r) eqn:E; [apply N.leb_le in E; lia|exact H]. }
+  apply G. lia.
+Qed.
+Lemma window_consumed_le arena win ps :
+  snd (read_cstr_w arena win (run_pre arena win ps)) <= win.
+Proof.
+  pose proof (read_cstr_w_le arena win _ (run_pre_le arena win ps)) as H. rewrite lenN_takeN in H. lia.
+Qed.
+
 Set Default Proof Using "All".
 
 Section Final.
@@ -281,6 +323,28 @@ Proof.
     try reflexivity; try (split; reflexivity).
 Qed.
 
+(* String::Unflatten on a DataUnflattener that is a window onto a larger array and has already been read from: the
+   bytes outside the window never influence the result ... *)
+Theorem unflatten_window_local fx s a1 a2 win ps :
+  takeN win a1 = takeN win a2 ->
+  StrModel.step1 M TH PG OV jk fx s (OUnflattenW a1 win ps) = StrModel.step1 M TH PG OV jk fx s (OUnflattenW a2 win ps).
+Proof.
+  intros H. cbn [StrModel.step1 StrModel.mutate].
+  rewrite (run_pre_local a1 a2 win ps H).
+  rewrite (win_remaining_local a1 a2 win _ H), (read_cstr_w_local a1 a2 win _ H). reflexivity.
+Qed.
+(* ... and a remainder without a terminator inside the window is rejected: the String keeps its value, nothing is consumed *)
+Theorem unflatten_window_rejects s arena win ps :
+  inv s -> lenN arena < LIM -> nulfree (win_remaining arena win (run_pre arena win ps)) ->
+  step1 s (OUnflattenW arena win ps) = (s, R1Int (w_result false (run_pre arena win ps))).
+Proof.
+  intros I B F. cbn [StrModel.step1 StrModel.mutate].
+  set (r0 := run_pre arena win ps) in *. set (rem := win_remaining arena win r0) in *.
+  assert (Lr : lenN rem < LIM) by (unfold rem, win_remaining; rewrite lenN_dropN, lenN_takeN; lia).
+  destruct (unflatten_spec s rem I Lr) as (U1 & _). rewrite (U1 F).
+  unfold read_cstr_w. fold rem. apply cstr_fixpoint_unterminated in F. rewrite F. reflexivity.
+Qed.
+
 End Final.
 
 (* ------------------------------------------------------------------ the tree as pinned (fixed = false) *)
@@ -355,6 +419,8 @@ Definition c17_flatten_roundtrip jk := flatten_roundtrip cM cTH cPG cOV jk cM_po
 Definition c17_unflatten_rejects jk := unflatten_rejects_unterminated cM cTH cPG cOV jk cM_pos cTH_ge cPG_pos cPG_le cOV_lt cM_le.
 Definition c17_nul_string_truncates jk := nul_string_truncates cM cTH cPG cOV jk cM_pos cTH_ge cPG_pos cPG_le cOV_lt cM_le.
 Definition c17_shrink_mode jk := shrink_mode cM cTH cPG cOV jk cM_pos cTH_ge cPG_pos cPG_le cOV_lt cM_le.
+Definition c17_unflatten_window_local jk := unflatten_window_local cM cTH cPG cOV jk cM_pos cTH_ge cPG_pos cPG_le cOV_lt cM_le.
+Definition c17_unflatten_window_rejects jk := unflatten_window_rejects cM cTH cPG cOV jk cM_pos cTH_ge cPG_pos cPG_le cOV_lt cM_le.
 Definition c17_prealloc_value_safe jk := prealloc_value_safe cM cTH cPG cOV jk cM_pos cTH_ge cPG_pos cPG_le cOV_lt cM_le.
 Definition c17_shrink_value_safe jk := shrink_value_safe cM cTH cPG cOV jk cM_pos cTH_ge cPG_pos cPG_le cOV_lt cM_le.
 
